@@ -6,11 +6,12 @@ the YAML-level loader and Rewriter.ApplyTo, Path.Append and MakePath; purely fun
 a8e18fa + 0b5ce6d: no rule writes through a cell that shallow copies share any more).
 Tie to the code: (a) translator — the members of yaml.BuilderRule / yaml.OptionRule and the order
 in which AsRewriteRule dispatches them are regenerated from internal/yaml/builder.go, option.go
-into coq/Gen/VeneerRegistry_gen.v and checked against the model's dispatch; (b) correspondence —
+into coq/Gen/VeneerRegistry_gen.v and checked against the model's dispatch, together with how Path.Append
+builds its result (internal/ast/builder.go: copying / aliasing / unknown); (b) correspondence —
 builders from the real FromAST on generated schemas x generated rule files, applied by the real
 rewrite.Rewriter.ApplyTo (half of the cases loaded by the real YAML veneers loader, half built
 through the Go rule constructors; harness/verifh_ven); the result is compared inside Coq with
-the model (MISMATCH) and judged by the decidable checkers of coq/Model/VeneersSpec.v: WT,
+the model — STRICTLY: cog's builders must equal apply_to's (MISMATCH) — and judged by the decidable checkers of coq/Model/VeneersSpec.v: WT,
 frame_ok, rule contracts (PROPFAIL)."""
 import collections
 import copy
